@@ -1,0 +1,585 @@
+//go:build verif
+// +build verif
+
+package main
+
+// Verification hook (C16), second part: a STREAM of datagrams through one real mirror worker, or through
+// the real dispatcher (mirrorIPFIXDispatcher / mirrorSFlowDispatcher) and the workers it starts, on a path
+// that refuses some of them.
+//
+//	mirrorseq <ipfix|sflow> <dst dotted quad | ::1> <port> <max> <mtu> <w|d<k>> <items>
+//
+//	items = <count>x<src-hex>:<len>:<seed> joined by ","; the r-th repetition of an item is a datagram of
+//	        <len> octets from <src> (4 or 16 octets, any family) whose octet j is (seed + r + j) mod 256
+//	w     = the datagrams are handed to one mirrorIPFIX / mirrorSFlow goroutine (as TestVerifMirror does)
+//	d<k>  = they are handed to the dispatcher, configured with <k> mirror workers
+//	mtu   = MTU of the loopback interface while the case runs
+//
+// A raw socket with IP_HDRINCL never fragments: a packet longer than the MTU (or than 65535 octets) makes
+// Send fail with EMSGSIZE.  So that the MTU can be chosen per case without touching the machine, the whole
+// test re-executes itself in a private network namespace (CLONE_NEWNET; verifMirrorReexec) and sets the
+// MTU of that namespace's loopback interface with SIOCSIFMTU.
+//
+// Output: impl = "n=<packets captured>" followed by the hex of each (identification and header checksum
+// zeroed), in the order of the datagrams they belong to; "v6" for a target that is not IPv4; "panic".
+// Oracle (no model involved): every datagram from an IPv4 exporter with 28+len <= min(mtu, 65535) arrives at
+// the target exactly once, as the packet verifMirrorOracle accepts, whatever was refused or dropped before
+// it; nothing else arrives; with one worker the arrival order is the input order; the mirror keeps taking
+// datagrams until the end of the stream (no post blocks, the dispatcher's queue drains); nothing panics.
+
+import (
+	"bytes"
+	"encoding/hex"
+	"fmt"
+	"io/ioutil"
+	"log"
+	"net"
+	"os"
+	"os/exec"
+	"strconv"
+	"strings"
+	"syscall"
+	"testing"
+	"time"
+	"unsafe"
+)
+
+// true inside the private network namespace (the loopback MTU may be changed)
+var verifPrivateNS = false
+
+type verifIfreqFlags struct {
+	name  [16]byte
+	flags uint16
+	_     [22]byte
+}
+
+type verifIfreqMTU struct {
+	name [16]byte
+	mtu  int32
+	_    [20]byte
+}
+
+func verifLoIoctl(req uintptr, arg unsafe.Pointer) error {
+	fd, err := syscall.Socket(syscall.AF_INET, syscall.SOCK_DGRAM, 0)
+	if err != nil {
+		return err
+	}
+	defer syscall.Close(fd)
+	if _, _, e := syscall.Syscall(syscall.SYS_IOCTL, uintptr(fd), req, uintptr(arg)); e != 0 {
+		return e
+	}
+	return nil
+}
+
+func verifLoUp() error {
+	var r verifIfreqFlags
+	copy(r.name[:], "lo")
+	if err := verifLoIoctl(syscall.SIOCGIFFLAGS, unsafe.Pointer(&r)); err != nil {
+		return err
+	}
+	r.flags |= syscall.IFF_UP | syscall.IFF_RUNNING
+	return verifLoIoctl(syscall.SIOCSIFFLAGS, unsafe.Pointer(&r))
+}
+
+func verifLoMTU(mtu int) error {
+	var r verifIfreqMTU
+	copy(r.name[:], "lo")
+	r.mtu = int32(mtu)
+	return verifLoIoctl(syscall.SIOCSIFMTU, unsafe.Pointer(&r))
+}
+
+// Runs the calling test again in a child process with its own network namespace. Returns true when the
+// child did the work (the caller returns), false when the caller has to do it: it IS the child, or
+// a private namespace is not available (then the loopback MTU is left alone, see verifRunMirrorSeq).
+func verifMirrorReexec(t *testing.T, test string) bool {
+	if os.Getenv("VERIF_MIRROR_NS") != "" {
+		if err := verifLoUp(); err != nil {
+			fmt.Fprintln(os.Stderr, "verif: loopback of the private namespace:", err)
+			os.Exit(97)
+		}
+		verifPrivateNS = true
+		return false
+	}
+	cmd := exec.Command("/proc/self/exe", "-test.run=^"+test+"$", "-test.timeout=19m")
+	cmd.Env = append(os.Environ(), "VERIF_MIRROR_NS=1")
+	cmd.Stdout, cmd.Stderr = os.Stdout, os.Stderr
+	cmd.SysProcAttr = &syscall.SysProcAttr{Cloneflags: syscall.CLONE_NEWNET}
+	err := cmd.Run()
+	if err == nil {
+		return true
+	}
+	if ee, ok := err.(*exec.ExitError); ok && ee.ExitCode() != 97 {
+		t.Fatalf("%s in a private network namespace: %v", test, err)
+		return true
+	}
+	t.Log("no private network namespace, the loopback MTU stays as it is:", err)
+	return false
+}
+
+type verifSeqDgram struct {
+	src     net.IP
+	payload []byte
+}
+
+type verifSeqCase struct {
+	proto   string
+	dst     net.IP
+	port    int
+	max     int
+	mtu     int
+	workers int // 0: worker alone ("w")
+	disp    bool
+	dgrams  []verifSeqDgram
+}
+
+func verifParseMirrorSeq(line string) (c verifSeqCase, err error) {
+	f := strings.Split(line, " ")
+	if len(f) != 8 || f[0] != "mirrorseq" {
+		return c, fmt.Errorf("bad case line")
+	}
+	c.proto = f[1]
+	if c.proto != "ipfix" && c.proto != "sflow" {
+		return c, fmt.Errorf("bad proto")
+	}
+	if c.dst = net.ParseIP(f[2]); c.dst == nil {
+		return c, fmt.Errorf("bad dst")
+	}
+	if c.port, err = strconv.Atoi(f[3]); err != nil {
+		return c, err
+	}
+	if c.max, err = strconv.Atoi(f[4]); err != nil {
+		return c, err
+	}
+	if c.mtu, err = strconv.Atoi(f[5]); err != nil {
+		return c, err
+	}
+	if c.mtu < 68 {
+		// below the IPv4 minimum the kernel takes IPv4 off the interface altogether
+		return c, fmt.Errorf("bad mtu")
+	}
+	switch {
+	case f[6] == "w":
+	case strings.HasPrefix(f[6], "d"):
+		c.disp = true
+		if c.workers, err = strconv.Atoi(f[6][1:]); err != nil {
+			return c, err
+		}
+	default:
+		return c, fmt.Errorf("bad mode")
+	}
+	for _, it := range strings.Split(f[7], ",") {
+		cx := strings.SplitN(it, "x", 2)
+		if len(cx) != 2 {
+			return c, fmt.Errorf("bad item")
+		}
+		cnt, err := strconv.Atoi(cx[0])
+		if err != nil {
+			return c, err
+		}
+		g := strings.Split(cx[1], ":")
+		if len(g) != 3 {
+			return c, fmt.Errorf("bad item")
+		}
+		src, err := hex.DecodeString(g[0])
+		if err != nil {
+			return c, err
+		}
+		n, err := strconv.Atoi(g[1])
+		if err != nil {
+			return c, err
+		}
+		seed, err := strconv.Atoi(g[2])
+		if err != nil {
+			return c, err
+		}
+		for r := 0; r < cnt; r++ {
+			p := make([]byte, n)
+			for j := range p {
+				p[j] = byte(seed + r + j)
+			}
+			c.dgrams = append(c.dgrams, verifSeqDgram{src: net.IP(src), payload: p})
+		}
+	}
+	return c, nil
+}
+
+// is the address an IPv4 one (4 octets, or 16 with the ::ffff:0:0/96 prefix)?  Written without net.IP.To4.
+func verifIsV4(ip []byte) bool {
+	if len(ip) == 4 {
+		return true
+	}
+	if len(ip) != 16 {
+		return false
+	}
+	for i := 0; i < 10; i++ {
+		if ip[i] != 0 {
+			return false
+		}
+	}
+	return ip[10] == 0xff && ip[11] == 0xff
+}
+
+// the property's side of "can this datagram be mirrored at all": an IPv4 packet can name it as source and
+// the path carries 28+len octets unfragmented
+func verifSeqMirrorable(c verifSeqCase, d verifSeqDgram) bool {
+	lim := c.mtu
+	if lim > 65535 {
+		lim = 65535
+	}
+	return verifIsV4(d.src) && 28+len(d.payload) <= lim
+}
+
+var (
+	verifSentinelSrc     = []byte{10, 9, 8, 6}
+	verifSentinelPayload = []byte{0x5e, 0xe5, 0x5e}
+)
+
+func verifRunMirrorSeq(cp *verifCapture, c verifSeqCase) (string, string) {
+	o, v := verifRunMirrorSeqOnce(cp, c, 1500*time.Millisecond)
+	if strings.HasPrefix(v, "fail:not-mirrored") || strings.HasPrefix(v, "fail:queue-stuck") {
+		// a loaded machine must not raise an alarm: once more, with a long deadline
+		o, v = verifRunMirrorSeqOnce(cp, c, 6*time.Second)
+	}
+	return o, v
+}
+
+func verifRunMirrorSeqOnce(cp *verifCapture, c verifSeqCase, patience time.Duration) (string, string) {
+	if logger == nil {
+		logger = log.New(ioutil.Discard, "", 0)
+	}
+	v4target := verifIsV4(c.dst)
+
+	if verifNoRaw || cp == nil || (!verifPrivateNS && c.mtu < 65535) {
+		// raw sockets or the private namespace refused: header helpers + the assembly steps only
+		if !v4target {
+			return "v6", "ok noraw-fallback"
+		}
+		var out []string
+		for _, d := range c.dgrams {
+			if !verifSeqMirrorable(c, d) || (c.disp && c.workers == 0) {
+				continue
+			}
+			mc := verifMirrorCase{proto: c.proto, src: d.src, dst: c.dst, port: c.port, max: c.max, payload: d.payload}
+			h, hp := verifHelperHeader(mc)
+			if hp != "" {
+				return "panic", "fail:panic " + hp
+			}
+			pkt := append(append([]byte{}, h...), d.payload...)
+			if v := verifMirrorOracle(mc, pkt); v != "ok" {
+				return "n=0", v
+			}
+			out = append(out, hex.EncodeToString(pkt))
+		}
+		return strings.TrimSpace(fmt.Sprintf("n=%d %s", len(out), strings.Join(out, " "))), "ok noraw-fallback"
+	}
+
+	if c.proto == "ipfix" {
+		opts.IPFIXUDPSize = c.max
+	} else {
+		opts.SFlowUDPSize = c.max
+	}
+	if verifPrivateNS {
+		if err := verifLoMTU(c.mtu); err != nil {
+			return "bad-op", "fail:cannot set the loopback MTU: " + err.Error()
+		}
+		defer verifLoMTU(65536)
+	}
+
+	cp.drain()
+	before := verifFds()
+	defer verifCloseNewRaw(before)
+	done := make(chan string, 2)
+	// post hands one datagram to the mirror the way the decoding worker does, but waits (bounded) for room
+	var post func(src net.IP, body []byte) bool
+	var queued func() int
+	var stop func()
+	timeout := func() <-chan time.Time { return time.After(patience + time.Second) }
+	if c.proto == "ipfix" {
+		var ch chan IPFIXUDPMsg
+		if c.disp {
+			ch = make(chan IPFIXUDPMsg, 1000)
+			opts.IPFIXMirrorAddr, opts.IPFIXMirrorPort, opts.IPFIXMirrorWorkers = c.dst.String(), c.port, c.workers
+			go func() {
+				defer func() {
+					if p := recover(); p != nil {
+						done <- "panic " + fmt.Sprint(p)
+					}
+				}()
+				mirrorIPFIXDispatcher(ch)
+				done <- "return"
+			}()
+			stop = func() {}
+		} else {
+			ch = make(chan IPFIXUDPMsg, 1)
+			go func() {
+				defer func() {
+					if p := recover(); p != nil {
+						done <- "panic " + fmt.Sprint(p)
+					}
+				}()
+				err := mirrorIPFIX(c.dst, c.port, ch)
+				done <- "return " + fmt.Sprint(err)
+			}()
+			stop = func() {
+				select {
+				case ch <- IPFIXUDPMsg{}: // nil raddr: ends the worker (recovered above)
+				case <-time.After(time.Second):
+				}
+			}
+		}
+		post = func(src net.IP, body []byte) bool {
+			select {
+			case ch <- IPFIXUDPMsg{raddr: &net.UDPAddr{IP: src}, body: body}:
+				return true
+			case <-timeout():
+				return false
+			}
+		}
+		queued = func() int { return len(ch) }
+	} else {
+		var ch chan SFUDPMsg
+		if c.disp {
+			ch = make(chan SFUDPMsg, 1000)
+			opts.SFlowMirrorAddr, opts.SFlowMirrorPort, opts.SFlowMirrorWorkers = c.dst.String(), c.port, c.workers
+			go func() {
+				defer func() {
+					if p := recover(); p != nil {
+						done <- "panic " + fmt.Sprint(p)
+					}
+				}()
+				mirrorSFlowDispatcher(ch)
+				done <- "return"
+			}()
+			stop = func() {}
+		} else {
+			ch = make(chan SFUDPMsg, 1)
+			go func() {
+				defer func() {
+					if p := recover(); p != nil {
+						done <- "panic " + fmt.Sprint(p)
+					}
+				}()
+				err := mirrorSFlow(c.dst, c.port, ch)
+				done <- "return " + fmt.Sprint(err)
+			}()
+			stop = func() {
+				select {
+				case ch <- SFUDPMsg{}:
+				case <-time.After(time.Second):
+				}
+			}
+		}
+		post = func(src net.IP, body []byte) bool {
+			select {
+			case ch <- SFUDPMsg{raddr: &net.UDPAddr{IP: src}, body: body}:
+				return true
+			case <-timeout():
+				return false
+			}
+		}
+		queued = func() int { return len(ch) }
+	}
+
+	// a pool buffer of max octets (longer only if the payload is), as the decoding worker hands it over
+	mkBody := func(p []byte) []byte {
+		capacity := c.max
+		if len(p) > capacity {
+			capacity = len(p)
+		}
+		b := make([]byte, capacity)
+		copy(b, p)
+		return b[:len(p)]
+	}
+
+	ended := ""
+	stuckAt := -1
+	for i, d := range c.dgrams {
+		if !post(d.src, mkBody(d.payload)) {
+			stuckAt = i
+			break
+		}
+	}
+	sentinel := v4target && stuckAt < 0 && 28+len(verifSentinelPayload) <= c.mtu && !(c.disp && c.workers == 0)
+	if sentinel && !post(net.IP(verifSentinelSrc), mkBody(verifSentinelPayload)) {
+		stuckAt = len(c.dgrams)
+	}
+
+	// collect what arrives at the target
+	var got [][]byte
+	want := 0
+	for _, d := range c.dgrams {
+		if verifSeqMirrorable(c, d) && !(c.disp && c.workers == 0) {
+			want++
+		}
+	}
+	if v4target {
+		mc := verifMirrorCase{proto: c.proto, dst: c.dst, port: c.port}
+		deadline := time.Now().Add(patience)
+		sawSentinel := !sentinel
+		var settle time.Time // once the sentinel is in: how long to keep looking
+		resettle := func() {
+			if len(got) >= want || c.workers <= 1 {
+				// all there (or, one worker: nothing can follow the sentinel): a short look for what must NOT arrive
+				settle = time.Now().Add(30 * time.Millisecond)
+			} else {
+				// several workers: the sentinel may overtake; 150 ms of silence end the wait
+				settle = time.Now().Add(150 * time.Millisecond)
+			}
+		}
+		for {
+			now := time.Now()
+			if !now.Before(deadline) {
+				break
+			}
+			until := now.Add(25 * time.Millisecond)
+			if sawSentinel {
+				if settle.IsZero() {
+					resettle()
+				}
+				if now.After(settle) {
+					break
+				}
+				until = settle
+			}
+			pkt, s := cp.next(mc, until, done)
+			if s != "" {
+				ended = s
+				if strings.HasPrefix(s, "panic") || !c.disp {
+					break // the only worker is gone
+				}
+				continue
+			}
+			if pkt == nil {
+				continue
+			}
+			if bytes.Equal(pkt[12:16], verifSentinelSrc) && bytes.Equal(pkt[28:], verifSentinelPayload) {
+				sawSentinel = true
+				continue
+			}
+			got = append(got, pkt)
+			if sawSentinel {
+				resettle()
+			}
+		}
+		if sentinel && !sawSentinel && stuckAt < 0 {
+			stuckAt = len(c.dgrams)
+		}
+	}
+	// the queue in front of the dispatcher / worker must drain
+	left := 0
+	for dl := time.Now().Add(patience); ; {
+		if left = queued(); left == 0 || time.Now().After(dl) || ended != "" {
+			break
+		}
+		time.Sleep(2 * time.Millisecond)
+	}
+	if ended == "" {
+		select {
+		case ended = <-done:
+		default:
+		}
+	}
+	if ended == "" {
+		stop()
+	}
+
+	if strings.HasPrefix(ended, "panic") {
+		return "panic", "fail:" + strings.ReplaceAll(ended, "\n", " ")
+	}
+	if strings.Contains(ended, "not permitted") {
+		verifNoRaw = true
+		return verifRunMirrorSeqOnce(cp, c, patience)
+	}
+	if !v4target {
+		switch {
+		case !c.disp:
+			return "v6", ""
+		case left != 0 || stuckAt >= 0:
+			return "v6", fmt.Sprintf("fail:queue-stuck the dispatcher stopped taking datagrams: %d of %d left in its queue", left, len(c.dgrams))
+		}
+		return "v6", "ok"
+	}
+
+	// attribute the captured packets to the datagrams
+	owner := make([]int, len(got))
+	taken := make([]bool, len(c.dgrams))
+	verdict := "ok"
+	for gi, pkt := range got {
+		owner[gi] = -1
+		for i, d := range c.dgrams {
+			if !taken[i] && bytes.Equal(pkt[12:16], verifLast4(d.src)) && bytes.Equal(pkt[28:], d.payload) && verifIsV4(d.src) {
+				owner[gi], taken[i] = i, true
+				break
+			}
+		}
+		if owner[gi] < 0 && verdict == "ok" {
+			verdict = fmt.Sprintf("fail:unexpected-packet %d octets from %v (no datagram of the stream, or one too many)", len(pkt), net.IP(pkt[12:16]))
+		}
+	}
+	byDgram := make([]string, len(c.dgrams))
+	n := 0
+	for gi, pkt := range got {
+		if owner[gi] < 0 {
+			continue
+		}
+		d := c.dgrams[owner[gi]]
+		mc := verifMirrorCase{proto: c.proto, src: d.src, dst: c.dst, port: c.port, max: c.max, payload: d.payload}
+		if v := verifMirrorOracle(mc, pkt); v != "ok" && verdict == "ok" {
+			verdict = fmt.Sprintf("%s (datagram #%d)", v, owner[gi])
+		}
+		canon := append([]byte{}, pkt...)
+		canon[4], canon[5], canon[10], canon[11] = 0, 0, 0, 0
+		byDgram[owner[gi]] = hex.EncodeToString(canon)
+		n++
+	}
+	impl := fmt.Sprintf("n=%d", n)
+	for _, h := range byDgram {
+		if h != "" {
+			impl += " " + h
+		}
+	}
+	if verdict != "ok" {
+		return impl, verdict
+	}
+	refused := -1
+	for i, d := range c.dgrams {
+		mirrorable := verifSeqMirrorable(c, d) && !(c.disp && c.workers == 0)
+		if !mirrorable {
+			if taken[i] {
+				return impl, fmt.Sprintf("fail:unexpected-packet datagram #%d (%d octets from %v) cannot have been mirrored", i, len(d.payload), d.src)
+			}
+			refused = i
+			continue
+		}
+		if !taken[i] {
+			why := ""
+			if refused >= 0 {
+				r := c.dgrams[refused]
+				why = fmt.Sprintf(" after #%d (%d octets from %v), which could not be mirrored", refused, len(r.payload), r.src)
+			}
+			if strings.HasPrefix(ended, "return") && !c.disp {
+				why += "; the worker ended: " + ended
+			}
+			if stuckAt >= 0 {
+				why += fmt.Sprintf("; the mirror stopped taking datagrams at #%d", stuckAt)
+			}
+			return impl, fmt.Sprintf("fail:not-mirrored datagram #%d (%d octets from %v, path MTU %d)%s", i, len(d.payload), d.src, c.mtu, why)
+		}
+	}
+	if c.workers <= 1 {
+		last := -1
+		for gi := range got {
+			if owner[gi] < last {
+				return impl, fmt.Sprintf("fail:order datagram #%d arrived after #%d", owner[gi], last)
+			}
+			last = owner[gi]
+		}
+	}
+	if strings.HasPrefix(ended, "return") {
+		return impl, "fail:worker-ended " + ended
+	}
+	if left != 0 || stuckAt >= 0 {
+		return impl, fmt.Sprintf("fail:queue-stuck the mirror stopped taking datagrams (at #%d, %d left in its queue)", stuckAt, left)
+	}
+	return impl, "ok"
+}
